@@ -629,8 +629,15 @@ pub enum OpOutcome<T> {
     Sim(SimPanic),
 }
 
+thread_local! {
+    static CATCH_DEPTH: Cell<u32> = const { Cell::new(0) };
+}
+
 pub fn catch<T>(f: impl FnOnce() -> T) -> OpOutcome<T> {
-    match std::panic::catch_unwind(std::panic::AssertUnwindSafe(f)) {
+    CATCH_DEPTH.with(|d| d.set(d.get() + 1));
+    let r = std::panic::catch_unwind(std::panic::AssertUnwindSafe(f));
+    CATCH_DEPTH.with(|d| d.set(d.get() - 1));
+    match r {
         Ok(v) => OpOutcome::Ok(v),
         Err(p) => {
             if let Some(sp) = p.downcast_ref::<SimPanic>() {
@@ -662,6 +669,9 @@ pub fn install_panic_hook() {
                 format!("{}:{}", f, l.line())
             })
             .unwrap_or_default();
+        if CATCH_DEPTH.with(|d| d.get()) == 0 {
+            eprintln!("vmsim: uncaught panic: {} at {}", msg, loc);
+        }
         LAST_PANIC.with(|m| *m.borrow_mut() = format!("{} at {}", msg, loc));
     }));
 }
@@ -774,7 +784,7 @@ impl SimHooks for Hooks {
                 // SAFETY: same contract as the copy_nonoverlapping this replaces.
                 unsafe { dst.add(i).write_volatile(src.add(i).read_volatile()) };
                 let c = cx();
-                c.ev(EvKind::BulkByte, nd + i as u64, ns + i as u64, 1);
+                c.ev(EvKind::BulkByte, if nd == 0 { 0 } else { nd + i as u64 }, if ns == 0 { 0 } else { ns + i as u64 }, 1);
             }
             return true;
         }
@@ -888,7 +898,7 @@ impl SimHooks for Hooks {
 
 pub fn fmt_ev(e: &Ev) -> String {
     let n = |v: u64| -> String {
-        if v == 0 {
+        if v >> 40 == 0 {
             "local".to_string()
         } else {
             format!("r{}+{}", (v >> 40) - 1, v & 0xff_ffff_ffff)
